@@ -1,12 +1,6 @@
 """Manifest metadata per property (MANIFEST.json is generated from this by tools/gen_manifest.py)."""
 
 NA = {
-    'C02': 'colour/balance/search-order invariants are predicates over reachable heap shapes after arbitrary '
-           'histories; no sound static argument in reach bounds them (shape enumeration / symbolic execution is a '
-           'different technique family). The shape-visible clause (root written back and blackened) is decided under C01/C15.',
-    'C03': 'correctness depends on the runtime value of an 8-bit traversal-epoch counter against per-node stamps left by '
-           'earlier walks; any static rule (counter width, purge-on-wrap) would reject correct redesigns or accept '
-           'incorrect ones.',
 }
 
 PENDING = 'check not built yet in this revision (planned static rule set: DESIGN.md section 4)'
@@ -482,3 +476,52 @@ CHECKS['C20'].update(text=CHECKS['C20']['text'] + ' B8: the number classifier be
 CHECKS['C09'].update(text=CHECKS['C09']['text'] + ' E7 follows a static copy-out helper (memcpy of its parameters, returns destination + length) '
                      'and accepts `size - (comparison)` as the string-element length.')
 CHECKS['C12'].update(text=CHECKS['C12']['text'] + ' R3 treats a static helper that returns a fresh copy as fresh for cursor fields too.')
+
+
+# ---- C02 claimed from wave 11 on (thin partial claim; it was n/a before) ---------------------------------------------------------
+CHECKS['C02'] = dict(
+    category='other',
+    text='Decides structural necessary conditions of "stays a valid left-leaning red-black tree", not validity over reachable trees. ROT: '
+         'rotate_left, rotate_right and flip_color - evaluated symbolically as heap transformations over distinct symbolic nodes h, '
+         'h.left, h.right, ... with static helpers inlined and `if`s forked - are exactly the published transformations on every path: '
+         'h.right := x.left, x.left := h, x.red := old h.red, h.red := true, return x (and the mirror image); the three colours negated, '
+         'return h; no other node field written. T3: every rotation / fix-up / recursive result is stored back into the link that '
+         'supplied the argument. T3-root: the public mutators store the returned root and blacken it on every path. T9: no return '
+         'between a recursive descent and the way-up repairs. Breaking any of them breaks search order, colour or black height for some '
+         'history.',
+    note='Which repairs are applied in which order (this library\'s 2-3-4 variant differs from the textbook) and the invariants over all '
+         'reachable shapes (red-red, black height, left-leaning) are NOT decided; a primitive that is no longer loop-free gives exit 2.',
+    technique='static symbolic normal-form comparison of straight-line heap transformations (translation-validation style) plus CFG pairing / must-pass rules over clang JSON AST',
+    design_ref='4-C02',
+)
+
+
+# ---- C03 claimed from wave 11 on (thin partial claim; it was n/a before) ---------------------------------------------------------
+CHECKS['C03'] = dict(
+    category='other',
+    text='Decides protocol clauses of the stackless walk, not "every key exactly once in ascending order" over histories. T11: the function '
+         'that advances a traversal id narrower than 32 bits tests the id against 0 after the increment and, on the wrap, every path '
+         'passes a call of a function that assigns 0 to the node mark and recurses into both subtrees (so marks left by walks 2^width '
+         'starts ago, by abandoned walks, and the zero mark of new nodes never equal a live id). T7: every end-of-walk exit of the '
+         'walker advances the id; no other public operation reaches a function that advances it. T10: a node is stamped only on paths '
+         'that deliver it. T5/T5c: every climb through parent links and every descent that records them is preceded on all paths by the '
+         'reset of the root\'s parent link. Each is necessary: breaking it makes some walk skip or repeat keys for some history.',
+    note='The visiting order of the walker loop (left subtree, node, right subtree) and the result over histories are NOT decided. T11 '
+         'reported the 8-bit wrap on the pinned tree (a key inserted before the 256th walk start was skipped); repaired, see known_findings.',
+    technique='static must-pass-through / reachability rules over per-function CFGs and the unit call graph (clang JSON AST), type-width fact for the epoch field',
+    design_ref='4-C03',
+)
+
+
+# ---- wave-12 extensions -------------------------------------------------------------------------------------------------------
+CHECKS['C15'].update(text=CHECKS['C15']['text'] + ' A9: a zero-initialised, half-built object is handed to a clean-up routine only while, for '
+                     'every pointer field the routine (or a callee it hands the object to) dereferences and that is still NULL, at least '
+                     'one of the fields whose non-zero value the dereference needs is still zero. F1 (formatting retry loop keeps the '
+                     'buffer only with result < size; a failed realloc keeps the old block) over the container units.')
+CHECKS['C18'].update(text=CHECKS['C18']['text'] + ' A condition that tests the ADDRESS of the input (pointer cast to an integer type: an '
+                     'alignment split) is an opaque choice: the whole comparison is repeated for both outcomes and each must be the '
+                     'published function. H9: the hash unit keeps no mutable static state (no write to a non-const static, directly or '
+                     'by handing it to a callee as a writable buffer).')
+CHECKS['C07'].update(text=CHECKS['C07']['text'] + ' I12 second clause: the stop value of a ring walk with a wrapped cursor is not a parameter that '
+                     'a caller passes index + 1 for without normalisation (it may equal maxslots and is then never met).')
+CHECKS['C06'].update(text=CHECKS['C06']['text'] + ' I12 (ring-walk index and stop value in range) as under C07.')
